@@ -11,7 +11,7 @@ RULE = ("pairs (D1, D2): D1 = closure of a random braid word on 2-4 strands; D2 
         "every third pair has 6-14 crossings (implementation only). Evaluated on the implementation's bigraded tables over Z, Q, F2, F3 "
         "(unreduced; reduced for knots): SAME = identical tables; MIRROR = free part (i,j)->(-i,-j), torsion (i,j)->(1-i,-j); "
         "small pairs are additionally compared with the oracle. non-trivial = at least one diagram with >= 3 crossings and non-trivial "
-        "move sequence; distinct = distinct case lines")
+        "move sequence; every fourth moved braid is closed by the library itself (Braid::closure) instead of the generator-side closure; distinct = distinct case lines")
 
 
 def relation(case, impl):
